@@ -295,6 +295,10 @@ func runCase(line string, obs *vh.LineWriter, st *vh.Stats) {
 	if i := strings.Index(rest, "|"); i >= 0 {
 		head, body = strings.TrimSpace(rest[:i]), strings.TrimSpace(rest[i+1:])
 	}
+	if strings.HasPrefix(head, "node ") {
+		runNodeCase(id, head, body, line, obs, st)
+		return
+	}
 	if strings.HasPrefix(head, "sm ") {
 		runSMCase(id, head, body, line, obs, st)
 		return
@@ -402,7 +406,9 @@ func b2i(b bool) int {
 
 func main() {
 	a := vh.ParseArgs()
-	logger.GetLogger("rsm").SetLevel(logger.CRITICAL)
+	for _, pkg := range []string{"rsm", "raft", "dragonboat", "logdb", "registry", "transport", "config"} {
+		logger.GetLogger(pkg).SetLevel(logger.CRITICAL)
+	}
 	switch a.Mode {
 	case "gen":
 		n := 12000
@@ -421,6 +427,10 @@ func main() {
 		for i := 0; i < n/6; i++ {
 			w.Printf("s%d %s\n", i, genSMCase(r))
 		}
+		// node.go dimension: real *node, raft.Peer, registry, pendingConfigChange
+		for i := 0; i < n/4; i++ {
+			w.Printf("n%d %s\n", i, genNodeCase(r))
+		}
 		w.Close()
 	case "run":
 		st := vh.NewStats("sequences of 1..60 config change requests on the real rsm.membership (ordered on/off): replica ids 1..8 plus 0 and 2^64-1, " +
@@ -429,7 +439,9 @@ func main() {
 			"at least one rejection by a rule other than the ordered-id check; distinct by full case text. " +
 			"restart dimension (cases s*, n/6 of them): a real rsm.StateMachine over an on disk state machine applies a log of config changes and updates, takes metadata-only snapshot records, " +
 			"restarts (Open = index of the last update the disk kept, optionally lagging), recovers from the latest record and replays the log; compared after every entry and every restart with a never-restarted twin " +
-			"and with the model (sm_run); non-trivial there = at least one restart replayed a config change at or below the on disk index")
+			"and with the model (sm_run); non-trivial there = at least one restart replayed a config change at or below the on disk index. " +
+			"node.go dimension (cases n*, n/4 of them): a real node with raft.Peer, node registry and pendingConfigChange; local requests (valid, refused targets, pending + busy, ordered ids), entries of other requests while one is pending, " +
+			"promotions in other spellings, own removal, snapshots restored through StateMachine.Recover -> RestoreRemotes; non-trivial there = at least one local request was committed and applied")
 		obs := vh.Create(a.Out + "/impl.obs")
 		for _, line := range vh.ReadLines(a.Cases) {
 			runCase(line, obs, st)
